@@ -1791,6 +1791,14 @@ func runC19DupAlways(c *Ctx) {
 	} else {
 		c.bad(construct, calls[0].Pos(), "the duplicate check is conditional on "+bad+": duplicates in literal rows go unreported when include is dynamic")
 	}
+	// every value of a row is compared with the earlier ones: the loop over the values is not left before its end
+	if dup := staticCallee(calls[0].Common()); dup != nil && len(dup.Blocks) > 0 {
+		if exits := outermostLoopExits(p, dup); len(exits) == 0 {
+			c.ok(FuncName(dup)+"|every value of the row examined", dup.Pos(), "the loop over the values of the row runs to its end")
+		} else {
+			c.bad(FuncName(dup)+"|every value of the row examined", dup.Pos(), strings.Join(exits, "; ")+": the values behind it are never compared, a second duplicate in the same row goes unreported")
+		}
+	}
 }
 
 func runC20Reset(c *Ctx) {
